@@ -21,7 +21,7 @@ cp $src/demo_$id.rs examples/ 2>/dev/null
 cp $src/demo_$id.sh . 2>/dev/null
 run_demo() {
   if [ -f demo_$id.sh ]; then bash demo_$id.sh 2>&1 | tail -6; echo "demo exit=${PIPESTATUS[0]}";
-  else cargo run --offline --example demo_$id 2>&1 | grep -v "^warning\|^ *|\|^ *=\|^$\|^ *-->\|^help\|^[0-9 ]*|" | tail -6; echo "demo exit=${PIPESTATUS[0]}"; fi
+  else F=""; grep -q "feature = \"storage\"" examples/demo_$id.rs 2>/dev/null && F="--features storage"; cargo run --offline $F --example demo_$id 2>&1 | grep -v "^warning\|^ *|\|^ *=\|^$\|^ *-->\|^help\|^[0-9 ]*|" | tail -6; echo "demo exit=${PIPESTATUS[0]}"; fi
 }
 {
   echo "== seed $id: demo WITHOUT patch (expect PASS / exit 0)"
